@@ -1536,13 +1536,18 @@ class MacroFunction(Macro):
             res_tokens = []
             last_cat = False
             idx = 0
+            # Stands for the result of pasting two empty operands, so that a
+            # following ## finds its left operand (C11 6.10.3.3p2).
+            placemarker = Token("EXPANSION", -1, False, "")
 
             while idx < len(self.replacement):
                 tok = self.replacement[idx]
                 if tok.token == "##":
                     last = res_tokens.pop()
                     prev_white = last.prev_white
-                    if not last_cat:
+                    if last is placemarker:
+                        last = []
+                    elif not last_cat:
                         try:
                             argidx = self.args.index(last.token)
                             last = input_args[argidx][0]  # Unexpanded arg
@@ -1575,8 +1580,10 @@ class MacroFunction(Macro):
                             cp.prev_white = prev_white
                             toadd[0].prev_white = prev_white
                         res_tokens.extend(toadd)
-                    else:
+                    elif len(nexttok) > 0:
                         res_tokens.extend(nexttok)
+                    else:
+                        res_tokens.append(placemarker)
                     last_cat = True
                 elif tok.token == "#":
                     idx += 1
@@ -1600,6 +1607,7 @@ class MacroFunction(Macro):
                     last_cat = False
                     res_tokens.append(tok)
                 idx += 1
+            res_tokens = [t for t in res_tokens if t is not placemarker]
         else:
             res_tokens = copy(self.replacement)
 
